@@ -18,6 +18,30 @@ def pySlice {α} (l : List α) (i j : Option Int) : List α :=
 def Triangle.getSlice (t : List Cell) (i j : Option Int) : Except Err (List Cell) :=
   Triangle.ofCells (pySlice t i j)
 
+/-- indices selected by Python's `slice(i, j, k).indices(n)` for a non-zero step `k` -/
+def pySliceIndices (n : Nat) (i j : Option Int) (k : Int) : List Nat :=
+  let len : Int := n
+  let lower : Int := if k < 0 then -1 else 0
+  let upper : Int := if k < 0 then len - 1 else len
+  let clampB (x : Int) : Int := if x < 0 then max (x + len) lower else min x upper
+  let start : Int := match i with | none => (if k < 0 then upper else lower) | some x => clampB x
+  let stop : Int := match j with | none => (if k < 0 then lower else upper) | some x => clampB x
+  let rec go (fuel : Nat) (cur : Int) (acc : List Nat) : List Nat :=
+    match fuel with
+    | 0 => acc.reverse
+    | fuel + 1 =>
+      if (k > 0 && cur < stop) || (k < 0 && cur > stop) then go fuel (cur + k) (cur.toNat :: acc)
+      else acc.reverse
+  go (n + 1) start []
+
+/-- `l[i:j:k]` -/
+def pySliceStep {α} (l : List α) (i j : Option Int) (k : Int) : List α :=
+  (pySliceIndices l.length i j k).filterMap (fun idx => l[idx]?)
+
+/-- `t[i:j:k]`; a zero step raises `ValueError` -/
+def Triangle.getSliceStep (t : List Cell) (i j : Option Int) (k : Int) : Except Err (List Cell) :=
+  if k == 0 then .error .valueError else Triangle.ofCells (pySliceStep t i j k)
+
 /-- `a + b` -/
 def Triangle.add (a b : List Cell) : Except Err (List Cell) := Triangle.ofCells (a ++ b)
 
@@ -80,6 +104,23 @@ def Metadata.edit (m : Metadata) : MetaEdit → Metadata
 def Triangle.deriveMetadata (t : List Cell) (e : MetaEdit) : Except Err (List Cell) := do
   Triangle.ofCells (← t.mapM (fun c => ({ c with md := c.md.edit e }).mk?))
 
+/-- entries of `d` that every metadata's selected dict also holds with an equal value: the
+`details` of the left fold of `common_metadata` over the triangle's metadata -/
+def commonEntries (sel : Metadata → Dict MVal) (ms : List Metadata) : Dict MVal :=
+  match ms with
+  | [] => []
+  | m :: rest => (sel m).filter fun kv => rest.all fun o => (sel o).get? kv.1 == some kv.2
+
+/-- `t.remove_static_details()`: drop the detail / loss-detail keys common to all slices -/
+def Triangle.removeStaticDetails (t : List Cell) : Except Err (List Cell) := do
+  if t.isEmpty then return t
+  let ms := Triangle.metadata t
+  let cd := (commonEntries (·.details) ms).keys
+  let cl := (commonEntries (·.lossDetails) ms).keys
+  Triangle.ofCells (← t.mapM (fun c => ({ c with md := { c.md with
+    details := c.md.details.filter (fun kv => !cd.contains kv.1),
+    lossDetails := c.md.lossDetails.filter (fun kv => !cl.contains kv.1) } }).mk?))
+
 /-- `t.replace(evaluation_date=constant)` -/
 def Triangle.replaceEval (t : List Cell) (d : Date) : Except Err (List Cell) := do
   Triangle.ofCells (← t.mapM (fun c => ({ c with ev := d }).mk?))
@@ -104,6 +145,8 @@ def Triangle.rightEdge (t : List Cell) : Except Err (List Cell) :=
 /-- the modelled public operations -/
 inductive Op where
   | slice (i j : Option Int)
+  | sliceStep (i j : Option Int) (k : Int)
+  | removeStaticDetails
   | add (other : List Cell)
   | clip (a : ClipArgs)
   | filterMask (mask : List Bool)
@@ -114,6 +157,8 @@ inductive Op where
 
 def step (t : List Cell) : Op → Except Err (List Cell)
   | .slice i j => Triangle.getSlice t i j
+  | .sliceStep i j k => Triangle.getSliceStep t i j k
+  | .removeStaticDetails => Triangle.removeStaticDetails t
   | .add o => Triangle.add t o
   | .clip a => Triangle.clip t a
   | .filterMask m => Triangle.filterMask t m
